@@ -191,6 +191,43 @@ mod sys {
 
 pub const PAGE: usize = 4096;
 
+/// A private anonymous zero-filled mapping that is never backed by memory unless written: lets a check hand the
+/// crate a string or byte slice of more than 4 GiB (length prefixes beyond 2^32) at the cost of page faults only.
+#[cfg(all(not(miri), target_pointer_width = "64"))]
+pub struct HugeZero {
+    ptr: *mut u8,
+    len: usize,
+}
+#[cfg(all(not(miri), target_pointer_width = "64"))]
+impl HugeZero {
+    pub fn new(len: usize) -> Option<HugeZero> {
+        const MAP_NORESERVE: i32 = 0x4000;
+        let p = unsafe { sys::mmap(std::ptr::null_mut(), len, sys::PROT_READ | sys::PROT_WRITE, sys::MAP_PRIVATE | sys::MAP_ANONYMOUS | MAP_NORESERVE, -1, 0) };
+        if p as isize == -1 || p.is_null() {
+            return None;
+        }
+        Some(HugeZero { ptr: p as *mut u8, len })
+    }
+    pub fn as_slice(&self) -> &[u8] {
+        unsafe { std::slice::from_raw_parts(self.ptr, self.len) }
+    }
+    pub fn as_mut_slice(&mut self) -> &mut [u8] {
+        unsafe { std::slice::from_raw_parts_mut(self.ptr, self.len) }
+    }
+    /// were exact-size heap buffers requested (sanitizer stages)?  Then the multi-GiB lanes are skipped.
+    pub fn suppressed() -> bool {
+        heap_mode_requested()
+    }
+}
+#[cfg(all(not(miri), target_pointer_width = "64"))]
+impl Drop for HugeZero {
+    fn drop(&mut self) {
+        unsafe {
+            sys::munmap(self.ptr as *mut _, self.len);
+        }
+    }
+}
+
 /// A read/write region of `usable` bytes with an inaccessible page directly before and
 /// directly after it.  Under Miri (no mprotect) it degrades to exact-size heap buffers,
 /// where Miri itself reports any out-of-bounds access.
